@@ -351,4 +351,64 @@ def build(active_known=frozenset()):
     pack.lemma("named_lt is asymmetric (compare antisymmetric)", lemma_asym)
     pack.lemma("named_lt is transitive", lemma_trans)
     pack.lemma("named_lt is total: exactly equal names are incomparable (compare = 0 iff equal)", lemma_total)
+
+    # ------------------------------------------------------------------ the comparator sort / sort-by derive from a user function
+    # (sort and sort-by themselves hand this comparator to Python's sorted(), a stable sort: trusted)
+    class CmpFn:
+        """stand-in for the user's comparison function: an opaque callable (boolean or three-way)"""
+
+    def cmp_setup(eng, st):
+        eng.class_id(CmpFn)
+        eng.opaque_havoc = "none"
+
+        def typed_result(e, s, f, args, kwargs, line):
+            # the user's comparison function returns a boolean or a number (what the docstring of sort asks for)
+            def gen():
+                targs = [e.lift(x, s) for x in args]
+                res = V.fresh_val("cmp_result")
+                s.assume(z3.Or(V.is_bool(res), V.is_int(res), V.is_frac(res), V.is_flt(res), V.is_dec(res)))
+                s_r = s.copy()
+                s.calls.append((f.t, targs, dict(kwargs), res))
+                yield s, SV(res)
+                exc = Exc(None, (), term=V.fresh_int("exc"))
+                s_r.calls.append((f.t, targs, dict(kwargs), exc))
+                yield s_r, Raise(exc)
+
+            return gen()
+
+        eng.opaque_hook = typed_result
+
+    from pyvc.engine import Exc, SV, Raise
+
+    for kind in ("boolean or three-way",):
+        c = pack.contract("contracts.drivers_c17:three_way")
+        c.label = f"{kind} function"
+        c.param("f", OBJ(CmpFn))
+        c.setup(cmp_setup)
+        c.allow_callback_exceptions = True
+
+        def cmp_post(a, kind=kind):
+            calls = [c_ for c_ in a.post.st.calls if z3.eq(z3.simplify(c_[0]), z3.simplify(a.f))]
+            if not calls or any(isinstance(c_[3], Exc) for c_ in calls):
+                return z3.BoolVal(False)
+            first = calls[0]
+            r1 = first[3]
+            ok_args = z3.And(z3.BoolVal(len(first[1]) == 2), first[1][0] == a.x, first[1][1] == a.y)
+            number = z3.And(z3.Not(V.is_bool(r1)), z3.Or(V.is_int(r1), V.is_frac(r1), V.is_flt(r1), V.is_dec(r1)))
+            if len(calls) == 1:
+                # a number is returned as it is; a true boolean means "x sorts before y"
+                return z3.And(ok_args, z3.Or(z3.And(number, a.result == r1), z3.And(r1 == V.mk_bool(True), a.result == V.mk_int(-1))))
+            if len(calls) == 2:
+                second = calls[1]
+                r2 = second[3]
+                swapped = z3.And(z3.BoolVal(len(second[1]) == 2), second[1][0] == a.y, second[1][1] == a.x)
+                return z3.And(ok_args, swapped, r1 == V.mk_bool(False), a.result == z3.If(a.eng.truthy_term(SV(r2), a.post.st), V.mk_int(1), V.mk_int(0)))
+            return z3.BoolVal(False)
+
+        from pyvc import ops as _ops
+        from basilisp.lang import runtime as _rt
+
+        c.requires("the function is not `compare` itself (which is used as it is)", lambda a: z3.Not(_ops.eq_term(None, a.f, a.eng.lift(_rt.compare, a.pre.st))))
+        c.ensures("a three-way function's number is passed through; for a boolean 'less than' function the comparator is -1 when (f x y), "
+                  "1 when (f y x), 0 otherwise - asking f at most twice, with the arguments in that order", cmp_post)
     return pack
